@@ -238,4 +238,123 @@ theorem range_filterMap_get (g : List (String × Bool)) :
     (List.range g.length).filterMap (fun i => g[i]?.map gateRes) = g.map gateRes := by
   have := range'_filterMap_get gateRes g []
   simpa [List.range_eq_range'] using this
+/-- the gates after the first `t` actions of `as` -/
+def gatesAt (g : List (String × Bool)) (as : List Act) (t : Nat) : List (String × Bool) :=
+  (as.take t).foldl gatesStep g
+
+theorem gatesAt_zero (g as) : gatesAt g as 0 = g := by simp [gatesAt]
+theorem gatesAt_succ (g a as t) : gatesAt g (a :: as) (t + 1) = gatesAt (gatesStep g a) as t := by
+  simp [gatesAt]
+
+/-- the values the reads at instants `ts` see of the snapshotted gates `todo` -/
+def readAt (g : List (String × Bool)) (as : List Act) (ts todo : List Nat) : List Res :=
+  (ts.zip todo).filterMap fun p => (gatesAt g as p.1)[p.2]?.map gateRes
+
+theorem readAt_shift (g : List (String × Bool)) (a : Act) (as : List Act) (ts todo : List Nat) :
+    readAt g (a :: as) (ts.map (· + 1)) todo = readAt (gatesStep g a) as ts todo := by
+  unfold readAt
+  induction ts generalizing todo with
+  | nil => simp
+  | cons t ts ih =>
+    cases todo with
+    | nil => simp
+    | cons i rest =>
+      simp only [List.map_cons, List.zip_cons_cons, List.filterMap_cons, gatesAt_succ]
+      rw [ih rest]
+
+/-- **explicit instants.**  If the request answers `resp`, there are instants
+    `ts` — strictly increasing positions of its own `reqRead` actions, all before the
+    position `c` of its `reqRespond` — such that the j-th snapshotted gate was read at
+    instant `ts[j]` and `resp` aggregates exactly the values the gates had at those instants. -/
+theorem replay_instants (rid : Nat) (as : List Act) :
+    ∀ (g : List (String × Bool)) (todo : List Nat) (got : List Res) (resp : ReadyResp),
+    replay rid g todo got as = some resp →
+    ∃ (ts : List Nat) (c : Nat), as[c]? = some (.reqRespond rid) ∧ ts.length ≤ todo.length ∧
+      ts.Pairwise (· < ·) ∧ (∀ t ∈ ts, t < c ∧ as[t]? = some (.reqRead rid)) ∧
+      resp = respond (got ++ readAt g as ts todo) := by
+  induction as with
+  | nil => intro g todo got resp h; simp [replay] at h
+  | cons a as ih =>
+    intro g todo got resp h
+    -- lifting an answer for the tail to the whole list
+    have lift : ∀ (g' : List (String × Bool)) (todo' : List Nat) (got' : List Res), g' = gatesStep g a →
+        (∃ (ts : List Nat) (c : Nat), as[c]? = some (.reqRespond rid) ∧ ts.length ≤ todo'.length ∧
+          ts.Pairwise (· < ·) ∧ (∀ t ∈ ts, t < c ∧ as[t]? = some (.reqRead rid)) ∧
+          resp = respond (got' ++ readAt g' as ts todo')) →
+        ∃ (ts : List Nat) (c : Nat), (a :: as)[c]? = some (.reqRespond rid) ∧ ts.length ≤ todo'.length ∧
+          ts.Pairwise (· < ·) ∧ (∀ t ∈ ts, t < c ∧ (a :: as)[t]? = some (.reqRead rid)) ∧
+          resp = respond (got' ++ readAt g (a :: as) ts todo') ∧ ∀ t ∈ ts, 0 < t := by
+      intro g' todo' got' hg ⟨ts, c, h1, h2, h3, h4, h5⟩
+      refine ⟨ts.map (· + 1), c + 1, by simpa using h1, by simpa using h2, ?_, ?_, ?_, ?_⟩
+      · exact List.Pairwise.map _ (fun _ _ h => Nat.add_lt_add_right h 1) h3
+      · intro t ht
+        obtain ⟨t', ht', rfl⟩ := List.mem_map.1 ht
+        obtain ⟨h6, h7⟩ := h4 t' ht'
+        exact ⟨by omega, by simpa using h7⟩
+      · rw [readAt_shift, ← hg]; exact h5
+      · intro t ht
+        obtain ⟨t', _, rfl⟩ := List.mem_map.1 ht
+        omega
+    cases a with
+    | register n =>
+      obtain ⟨ts, c, h1, h2, h3, h4, h5, -⟩ := lift _ todo got rfl (ih _ todo got resp (by simpa [replay] using h))
+      exact ⟨ts, c, h1, h2, h3, h4, h5⟩
+    | signal i b =>
+      obtain ⟨ts, c, h1, h2, h3, h4, h5, -⟩ := lift _ todo got rfl (ih _ todo got resp (by simpa [replay] using h))
+      exact ⟨ts, c, h1, h2, h3, h4, h5⟩
+    | reqSnapshot r =>
+      obtain ⟨ts, c, h1, h2, h3, h4, h5, -⟩ := lift _ todo got rfl (ih _ todo got resp (by simpa [replay] using h))
+      exact ⟨ts, c, h1, h2, h3, h4, h5⟩
+    | reqRespond r =>
+      by_cases hr : r = rid
+      · subst hr
+        simp only [replay, ↓reduceIte, Option.some.injEq] at h
+        exact ⟨[], 0, rfl, by simp, List.Pairwise.nil, by simp, by simp [readAt, h]⟩
+      · obtain ⟨ts, c, h1, h2, h3, h4, h5, -⟩ :=
+          lift g todo got rfl (ih g todo got resp (by simpa [replay, hr] using h))
+        exact ⟨ts, c, h1, h2, h3, h4, h5⟩
+    | reqRead r =>
+      by_cases hr : r = rid
+      · subst hr
+        cases todo with
+        | nil =>
+          obtain ⟨ts, c, h1, h2, h3, h4, h5, -⟩ :=
+            lift g [] got rfl (ih g [] got resp (by simpa [replay] using h))
+          exact ⟨ts, c, h1, h2, h3, h4, h5⟩
+        | cons i rest =>
+          simp only [replay, ↓reduceIte] at h
+          cases hx : g[i]? with
+          | none =>
+            rw [hx] at h
+            obtain ⟨ts, c, h1, h2, h3, h4, h5, h6⟩ := lift g rest got rfl (ih g rest got resp h)
+            refine ⟨0 :: ts, c, h1, by simp; omega, ?_, ?_, ?_⟩
+            · exact List.pairwise_cons.2 ⟨fun t ht => h6 t ht, h3⟩
+            · intro t ht
+              cases ht with
+              | head => exact ⟨by
+                  cases c with
+                  | zero => simp at h1
+                  | succ c => omega, rfl⟩
+              | tail _ ht => exact h4 t ht
+            · rw [h5]
+              simp only [readAt, List.zip_cons_cons, List.filterMap_cons, gatesAt_zero, hx, Option.map_none]
+          | some x =>
+            rw [hx] at h
+            obtain ⟨ts, c, h1, h2, h3, h4, h5, h6⟩ :=
+              lift g rest (got ++ [gateRes x]) rfl (ih g rest (got ++ [gateRes x]) resp h)
+            refine ⟨0 :: ts, c, h1, by simp; omega, ?_, ?_, ?_⟩
+            · exact List.pairwise_cons.2 ⟨fun t ht => h6 t ht, h3⟩
+            · intro t ht
+              cases ht with
+              | head => exact ⟨by
+                  cases c with
+                  | zero => simp at h1
+                  | succ c => omega, rfl⟩
+              | tail _ ht => exact h4 t ht
+            · rw [h5]
+              simp only [readAt, List.zip_cons_cons, List.filterMap_cons, gatesAt_zero, hx, Option.map_some,
+                List.append_assoc, List.singleton_append]
+      · obtain ⟨ts, c, h1, h2, h3, h4, h5, -⟩ :=
+          lift g todo got rfl (ih g todo got resp (by simpa [replay, hr] using h))
+        exact ⟨ts, c, h1, h2, h3, h4, h5⟩
 end Influx.CheckM
